@@ -6,14 +6,33 @@ F = "fparser.two.Fortran2003:"
 
 # name n (lower-cased) is declared / imported in table t or one of its ancestors (uninterpreted here; the
 # recursive definition over _data_symbols / _modules / _parent is the contract of SymbolTable.lookup)
-spec("visible", "t:SymbolTable, n:str", "bool", None)
+# a use-associated module makes a (lower-case) name available: abstract content of ModuleUse._symbols
+spec("mod_has", "m:ref, n:str", "bool", None)
+# T7: what SymbolTable.lookup finds: own declarations, names imported by a USE in this table, then the enclosing scopes
+spec("visible", "t:SymbolTable, n:str", "bool",
+     "n in t._data_symbols or any(mod_has(t._modules.values()[k], n) for k in range(len(t._modules.values()))) or "
+     "(t._parent is not None and visible(nonnull(t._parent), n))", rec=True, heap=("_data_symbols", "_modules", "_parent"))
 
-contract("proto:symtab_lookup", trusted=True,
+contract("proto:module_lookup", trusted=True,
+    types=dict(self="ref", name="str"), returns="any", modifies=[],
+    ensures={"has": "mod_has(self, name)"},
+    raises={"KeyError": {"has_not": "not mod_has(self, name)"}},
+    note="ModuleUse.lookup(name): self._symbols[name.lower()] (callers pass lower-case names)")
+
+contract("fparser.two.symbol_table:SymbolTable.lookup",
     types=dict(self="SymbolTable", name="str"), returns="any",
     modifies=[],
+    str_axioms=["case_idempotent"],
+    calls={"module.lookup": "proto:module_lookup", "self.parent.lookup": "fparser.two.symbol_table:SymbolTable.lookup"},
     ensures={"found_means_visible": "visible(self, name.lower())"},
     raises={"KeyError": {"not_visible": "not visible(self, name.lower())"}},
-    note="SymbolTable.lookup(name): succeeds iff the (lower-cased) name is visible from this table through its parents")
+    loops={0: dict(seq="mods", invariant={
+        "none_so_far": "all(not mod_has(mods[k], lname) for k in range(_k0))",
+        "mods": "mods == self._modules.values()",
+    }, modifies=[])},
+    serves=["C16"],
+    note="termination (finite parent chain) is not proved; the recursive call is used through this contract",
+)
 
 contract("fparser.two.symbol_table:SymbolTable.all_symbols_resolved", prop=True, trusted=True,
     types=dict(self="SymbolTable"), returns="bool", modifies=[], ensures={}, raises=[],
@@ -28,7 +47,7 @@ contract(F + "Intrinsic_Function_Reference.match",
     types=dict(cls="cls", string="str"),
     returns="tuple[ref:Base,any]?",
     bind={"SYMBOL_TABLES": "ref:SymbolTables"},
-    calls={"CallBase.match": "proto:callbase_match", "table.lookup": "proto:symtab_lookup",
+    calls={"CallBase.match": "proto:callbase_match", "table.lookup": "fparser.two.symbol_table:SymbolTable.lookup",
            "intrinsic_type.specific_function_names.keys": "pure:any"},
     ensures_local={
         # "exactly when name is a Fortran intrinsic that is not declared in the enclosing scopes visible at that point"
